@@ -127,6 +127,9 @@ func (x *Exec) loopHeader(fr *Frame, h *ssa.BasicBlock, pred *ssa.BasicBlock, np
 	}
 	bindPhis(phiVals)
 	evalInv := func(kind string) bool {
+		for _, ai := range x.autoInvariants(fr, h) {
+			x.oblige(fr, st, kind, fmt.Sprintf("%s.loop%d", shortFn(fr.fn), ord), h.Instrs[0].Pos(), ai.t, ai.text)
+		}
 		if lc == nil {
 			return true
 		}
@@ -134,6 +137,12 @@ func (x *Exec) loopHeader(fr *Frame, h *ssa.BasicBlock, pred *ssa.BasicBlock, np
 		for _, inv := range lc.Invariants {
 			t, err := ce.evalBool(inv)
 			if err != nil {
+				if staleInvariant(err) {
+					// an invariant is a proof hint, not part of the specification: one that names a local the
+					// code no longer has is dropped (and reported); what it was needed for then fails on its own
+					x.note("loop %d of %s: invariant %q dropped (%v)", ord, funcName(fr.fn), inv.Text, err)
+					continue
+				}
 				x.fail("%s loop %d invariant %q: %v", funcName(fr.fn), ord, inv.Text, err)
 				return false
 			}
@@ -307,11 +316,17 @@ func (x *Exec) loopHeader(fr *Frame, h *ssa.BasicBlock, pred *ssa.BasicBlock, np
 		lf.ghostHead[gname] = gv
 	}
 	st.loopFrames = append(st.loopFrames, lf)
+	for _, ai := range x.autoInvariants(fr, h) {
+		st.assume(ai.t)
+	}
 	if lc != nil {
 		ce := &CEnv{x: x, st: st, old: fr.entry, vars: x.invEnvAt(fr, h), pkg: x.cs.pkgOf(fr.fn), fr: fr, entryAllocW: fr.entry.allocW, loopEntry: fr.loopEntry[h]}
 		for _, inv := range lc.Invariants {
 			t, err := ce.evalBool(inv)
 			if err != nil {
+				if staleInvariant(err) {
+					continue
+				}
 				x.fail("%s loop %d invariant %q: %v", funcName(fr.fn), ord, inv.Text, err)
 				return
 			}
@@ -327,6 +342,65 @@ func (x *Exec) loopHeader(fr *Frame, h *ssa.BasicBlock, pred *ssa.BasicBlock, np
 		}
 	}
 	x.execInstrs(fr, h, nphi, st, k)
+}
+
+func staleInvariant(err error) bool {
+	return err != nil && strings.Contains(err.Error(), "unknown identifier")
+}
+
+type autoInv struct {
+	t    *Term
+	text string
+}
+
+// autoInvariants: the index of a `for ... := range s` loop over a slice, array or string stays within
+// [-1, len(s)): go/ssa compiles the loop to `i = phi(-1, i+1); if i+1 < len(s)` with len(s) evaluated once
+// before the loop. The invariant is generated from that shape and checked like a written one (entry and step),
+// so that proofs do not depend on the name of the ranged local.
+func (x *Exec) autoInvariants(fr *Frame, h *ssa.BasicBlock) []autoInv {
+	var out []autoInv
+	for _, ins := range h.Instrs {
+		phi, ok := ins.(*ssa.Phi)
+		if !ok {
+			break
+		}
+		if phi.Comment != "rangeindex" {
+			continue
+		}
+		pv, ok := fr.env[phi]
+		if !ok || len(pv.C) != 1 || pv.C[0].Sort != BV64 {
+			continue
+		}
+		// find `inc = phi + 1` and `inc < L` in the header
+		for _, r := range *phi.Referrers() {
+			inc, ok := r.(*ssa.BinOp)
+			if !ok || inc.Op != token.ADD || inc.Block() != h {
+				continue
+			}
+			for _, r2 := range *inc.Referrers() {
+				cmp, ok := r2.(*ssa.BinOp)
+				if !ok || cmp.Op != token.LSS || cmp.X != inc || cmp.Block() != h {
+					continue
+				}
+				var lv Val
+				switch L := cmp.Y.(type) {
+				case *ssa.Const:
+					lv = x.constVal(L)
+				default:
+					v, ok := fr.env[L]
+					if !ok {
+						continue
+					}
+					lv = v
+				}
+				if len(lv.C) != 1 || lv.C[0].Sort != BV64 {
+					continue
+				}
+				out = append(out, autoInv{t: And(BVCmp("bvsle", bv64(-1), pv.C[0]), BVCmp("bvslt", pv.C[0], lv.C[0])), text: "auto: range index within [-1, len)"})
+			}
+		}
+	}
+	return out
 }
 
 func shortFn(fn *ssa.Function) string {
